@@ -168,6 +168,19 @@ func checkC06(r *Run) propMeta {
 			}
 			first := map[string]map[string]token.Pos{} // argument text -> method -> first position
 			ast.Inspect(fd.Body, func(n ast.Node) bool {
+				// a direct read of the scope's alias map is a lookup in the user-symbol table as well
+				if ix, ok := n.(*ast.IndexExpr); ok {
+					if sel, ok := ast.Unparen(ix.X).(*ast.SelectorExpr); ok && sel.Sel.Name == "aliases" && namedName(info.TypeOf(sel.X)) == "Scope" {
+						arg := exprString(r.Fset, ix.Index)
+						if first[arg] == nil {
+							first[arg] = map[string]token.Pos{}
+						}
+						if _, seen := first[arg]["AliasedLookup"]; !seen {
+							first[arg]["AliasedLookup"] = ix.Pos()
+						}
+					}
+					return true
+				}
 				call, ok := n.(*ast.CallExpr)
 				if !ok || len(call.Args) != 1 {
 					return true
@@ -252,6 +265,8 @@ func checkC06(r *Run) propMeta {
 	}
 	r.Floor("C06-R5-alias-after-frame-rewrite", 1)
 	checkShapeAliasCollisions(r, tp)
+	checkVariableSymbolsRaw(r, r.MustPkg("cypher/frontend"))
+	checkNoCrossNamespaceComparison(r, tp)
 	checkConsistentResultBinding(r, tp, r.MustPkg("cypher/models/pgsql/optimize"))
 	r.Floor("C06-R1-alias-namespace", 15)
 	r.Floor("C06-R2-definition-namespace", 8)
